@@ -26,7 +26,7 @@ LEVEL_NOTE = ('Trusted, stated plainly: the fft2 contract `fft2ortho` is written
               'restated; differently tilted overlapping fields are not covered by an energy theorem (their Σ|field|² is not the input '
               'power). np.dot/np.exp as in C01; floating-point rounding is not modelled.')
 TECHNIQUE = 'Lean 4 proof (roots-of-unity orthogonality, Finset sums) over a generic executable model + differential correspondence'
-GEN = ['FourierWiring', 'Window', 'Extent', 'NormalizePower']
+GEN = ['FourierWiring', 'Window', 'Extent', 'NormalizePower', 'FieldMerge', 'FieldDispatch', 'FieldAccum']
 OPS = ['C01', 'C05', 'C02', 'C09']
 RULE = ('cases: wavefronts of shape 1..5 x 1..5 (one full field, or 2-3 sub-fields with offsets, possibly overlapping), complex '
         'Gaussian data, oversample 1..4, full period K x L = (shape·os) with K ≥ rows, L ≥ cols drawn independently per axis; '
